@@ -785,8 +785,10 @@ def run_tests_ob(P, R, mp, log_dir, bound):
         for nm, ty in f.locals.items():
             if ty.replace(" ", "") in ("std::vec::Vec<cli::test_runner::TestInfo>", "std::vec::Vec<TestInfo>"):
                 src_local = src_local or nm
-        ex = slice_executor(P, R, bound, (r"run_single_test$", r"print_test_result$", r"^style", r"discover_", r"Instant::", r"Duration::", r"io::_print", r"fmt::"))
+        ex = slice_executor(P, R, min(bound, 2), (r"run_single_test$", r"print_test_result$", r"^style", r"discover_", r"Instant::", r"Duration::", r"io::_print", r"fmt::"))
         ex.model_vecs = True
+        ex.seq_bounds = {"tests": bound}          # thorough: up to 3 tests, marker lists stay at 0..=2 (the per-test logic is the same for each)
+        ex.max_paths = 6000000
 
         def vec_into_iter(ex_, callee, args, st):
             v = ex_.deref(args[0], st)
@@ -806,7 +808,7 @@ def run_tests_ob(P, R, mp, log_dir, bound):
         live.update({nm: Opaque("start") for nm, ty in f.locals.items() if ty.strip().endswith("Instant")})
         outs = ex.run_slice(f, entry, live, args)
         r = {"id": "X-run_tests", "engine": "E2-X mirsmt", "statement": statement,
-             "bound": f"0..={bound} collected tests with 0..={bound} markers each (every marker kind), every outcome of run_single_test (uninterpreted), --exitfirst symbolic; "
+             "bound": f"0..={bound} collected tests with 0..={min(bound, 2)} markers each (every marker kind), every outcome of run_single_test (uninterpreted), --exitfirst symbolic; "
                       "discovery, filtering and printing are outside (the slice starts where the filtered list exists)",
              "functions_encoded": [n + " (MIR)" for n in ex.encoded]}
         mk = [v[0] for v in R.resolve("cli::test_runner::TestMarker").variants]
